@@ -38,14 +38,18 @@ ASSUMPTIONS = ["element symbols are upper case, 1-2 characters, without blanks o
                "coordinates are float32 values (AtomArray.coord), which is what rules out the 99999.99996 -> '100000.0000' carry",
                "metadata values: non-empty lines without leading/trailing blanks, not starting with '>' or '$$$$'; "
                "header fields within their column widths, without surrounding blanks; no line-break characters anywhere"]
-TECHNIQUE = ("Lean 4 proof (induction over digit strings, token lists and batches; decide on the tables regenerated from the "
-             "source) + text-level correspondence of writer and reader + write/read oracle")
-LEVEL_TEXT = ("Theorems (all inputs, no size bound): bond/charge/RDKit table obligations on the regenerated tables, reader slices = "
-              "writer fields, V2000 column layout (line widths, counts/version/bond fields read back), version switch, CHG "
-              "batching. The general write->read round-trip theorems (CTAB both versions, metadata key, metadata, records) are "
-              "NOT proved: they hold by kernel evaluation on concrete molecules/keys only and are otherwise tied by the "
-              "text-level correspondence of writer and reader and by the write->read oracle on the real code. The RDKit "
-              "bridge and the float32 re-rounding of read coordinates are oracle-only (partial).")
+TECHNIQUE = ("Lean 4 proof (induction over digit strings, token lists, line lists and batches; refinement of the slice/"
+             "split-based readers against the f-string writers; decide on the tables regenerated from the source) + "
+             "text-level correspondence of writer and reader + write/read oracle")
+LEVEL_TEXT = ("Theorems over the character-level model, all inputs, no size bound: CTAB write->read round trip for V2000, "
+              "V3000 and every version argument (atoms in order, elements, charges, coordinates as 4-decimal scaled integers, "
+              "bonds in order with every expressible type, others as the default) for well-formed molecules (WFMol); V2000 "
+              "column layout, version switch, CHG batching; metadata-key, metadata and record-splitting round trips under "
+              "their stated hypotheses; bond/charge/RDKit table obligations and reader-slice = writer-field obligations on "
+              "tables regenerated from the source. Partial: the RDKit bridge (to_mol/from_mol, conformers) and the float32 "
+              "re-rounding of read coordinates are tied by the oracle only; Header round trip is correspondence/oracle only; "
+              "the rounding condition CoordOk of WFMol is proved to follow from the writer's digit guard for coordinates on "
+              "the float32 grid (C18_guard_implies_columns).")
 LEVEL_NOTE = ("modelled-not-verified: Python float/int formatting and parsing, str methods on ASCII, numpy U2/uint32 stores, "
               "BondList normalisation; RDKit external")
 
